@@ -90,7 +90,6 @@ package predicates
 //@   ensures [hostPortsCheckedForEveryPod] alwaysReq(result["PodFitsHostPorts"].IsPreFilterRequired) && alwaysReq(result["PodFitsHostPorts"].IsFilterRequired)
 //@   ensures [volumeBindingCheckedForEveryPod] alwaysReq(result["VolumeBinding"].IsPreFilterRequired) && alwaysReq(result["VolumeBinding"].IsFilterRequired)
 //@   ensures [dynamicResourcesCheckedForEveryPod] alwaysReq(result["DynamicResources"].IsPreFilterRequired) && alwaysReq(result["DynamicResources"].IsFilterRequired)
-//@   ensures [taintsNeedNoPreFilter] neverReq(result["PodToleratesNodeTaints"].IsPreFilterRequired)
 //@   # each entry is wired to ITS upstream plugin object (the one the cache constructed under that name)
 //@   ensures [taintsWired] initiatedPlugins.TaintToleration != nil ==> k8s_internal.filterOf(result["PodToleratesNodeTaints"].Filter, initiatedPlugins.TaintToleration)
 //@   ensures [nodeAffinityWired] initiatedPlugins.NodeAffinity != nil ==> k8s_internal.filterOf(result["NodeAffinity"].Filter, initiatedPlugins.NodeAffinity) && k8s_internal.preFilterOf(result["NodeAffinity"].PreFilter, initiatedPlugins.NodeAffinity)
